@@ -2240,7 +2240,7 @@ ldb_write(ldb_t *db, ldb_batch_t *updates, const ldb_writeopt_t *options) {
        into db->mem. */
     {
       ldb_slice_t contents;
-      int sync_error = 0;
+      int log_error = 0;
 
       ldb_mutex_unlock(&db->mutex);
 
@@ -2248,11 +2248,14 @@ ldb_write(ldb_t *db, ldb_batch_t *updates, const ldb_writeopt_t *options) {
 
       rc = ldb_writer_add_record(db->log, &contents);
 
+      if (rc != LDB_OK)
+        log_error = 1;
+
       if (rc == LDB_OK && options->sync) {
         rc = ldb_wfile_sync(db->logfile);
 
         if (rc != LDB_OK)
-          sync_error = 1;
+          log_error = 1;
       }
 
       if (rc == LDB_OK)
@@ -2260,10 +2263,13 @@ ldb_write(ldb_t *db, ldb_batch_t *updates, const ldb_writeopt_t *options) {
 
       ldb_mutex_lock(&db->mutex);
 
-      if (sync_error) {
+      if (log_error) {
         /* The state of the log file is indeterminate: the log record we
-           just added may or may not show up when the DB is re-opened.
-           So we force the DB into a mode where all future writes fail. */
+           just added may or may not show up when the DB is re-opened,
+           and after a failed or partial append the log writer's block
+           offset no longer matches the file, so later records would be
+           unreadable. So we force the DB into a mode where all future
+           writes fail. */
         ldb_record_background_error(db, rc);
       }
     }
